@@ -211,6 +211,74 @@ fn emit_use(b: &mut B, ch: &mut Chooser, slot: W, other: W, allow_packed: bool) 
     }
 }
 
+/// One path on which a few values are computed once and then, through DUP, stored in several
+/// arrangements: packed in either order into plain slots and into elements of mappings, stored alone, and
+/// used as each other's mapping keys. The same value nodes (and their type variables) are shared by all
+/// the stores, so anything that depends on the order in which the stores reach the type checker shows.
+fn g_shared(ch: &mut Chooser) -> B {
+    let mut b = B::new();
+    let w = *ch.pick(&[64usize, 128]);
+    for off in [0u64, 0x20] {
+        b.push(W::from_u64(off));
+        b.emit(asm::CALLDATALOAD);
+        b.push(idiom::mask(w));
+        b.emit(asm::AND);
+    }
+    b.push(W::from_u64(0x40));
+    b.emit(asm::CALLDATALOAD);
+    // positions from the bottom: a = 1, b = 2, k = 3
+    let dup = |b: &mut B, pos: usize| {
+        let n = b.depth - pos + 1;
+        b.emit(0x80 + (n as u8 - 1));
+    };
+    let location = |b: &mut B, key_pos: usize, slot: u64| {
+        let n = b.depth - key_pos + 1;
+        b.emit(0x80 + (n as u8 - 1));
+        b.push(W::ZERO);
+        b.emit(asm::MSTORE);
+        b.push(W::from_u64(slot));
+        b.push(W::from_u64(0x20));
+        b.emit(asm::MSTORE);
+        b.push(W::from_u64(0x40));
+        b.push(W::ZERO);
+        b.emit(asm::SHA3);
+    };
+    for _ in 0..ch.range(2, 5) {
+        match ch.below(8) {
+            x @ 0..=3 => {
+                // lo | hi << w, into a mapping element or a plain slot
+                let (lo, hi) = if x % 2 == 0 { (1, 2) } else { (2, 1) };
+                dup(&mut b, hi);
+                b.push(W::pow2(w as u32));
+                b.emit(asm::MUL);
+                dup(&mut b, lo);
+                b.emit(asm::OR);
+                if x < 2 {
+                    location(&mut b, 3, 1 + x as u64);
+                } else {
+                    b.push(W::from_u64(10 + x as u64));
+                }
+                b.emit(asm::SSTORE);
+            }
+            4 | 5 => {
+                let which = if ch.chance(1, 2) { 1 } else { 2 };
+                dup(&mut b, which);
+                b.push(W::from_u64(3 + which as u64));
+                b.emit(asm::SSTORE);
+            }
+            _ => {
+                // m[a] = b or m[b] = a
+                let (key, val) = if ch.chance(1, 2) { (1, 2) } else { (2, 1) };
+                dup(&mut b, val);
+                location(&mut b, key, 6 + key as u64);
+                b.emit(asm::SSTORE);
+            }
+        }
+    }
+    b.emit(asm::STOP);
+    b
+}
+
 fn g_clash(ch: &mut Chooser, allow_packed: bool) -> B {
     let mut b = B::new();
     let nslots = ch.range(1, 3);
@@ -651,7 +719,8 @@ fn run_shard(ctx: &ShardCtx, acc: &mut Acc) {
     });
     drive(ctx, "orders", tier.pick(3_000, 40_000), 700, acc, &|ch, acc| {
         let permissive = ch.chance(1, 3);
-        let (name, code): (&str, Vec<u8>) = match ch.below(10) {
+        let (name, code): (&str, Vec<u8>) = match ch.below(12) {
+            10 | 11 => ("shared", g_shared(ch).code()),
             0..=1 => ("clash", g_clash(ch, true).code()),
             // most clash programs avoid packed accesses: the packed family is a known finding and
             // programs that contain it are excluded from the comparison
